@@ -262,6 +262,8 @@ def shrink_candidates(case):
             break
         c = {**case, "keys": [col[:i] + col[i + 1:] for col in case["keys"]], "vals": case["vals"][:i] + case["vals"][i + 1:],
              "noise": case["noise"][:i] + case["noise"][i + 1:]}
+        if case.get("big") is not None:
+            c["big"] = case["big"][:i] + case["big"][i + 1:]
         if case["mask"] is not None:
             c["mask"] = ("b", case["mask"][1][:i] + case["mask"][1][i + 1:])
         yield c
